@@ -925,6 +925,12 @@ func (ld *Loaded) genStubOnce(lp *LPkg, skip map[string]string, cur *string) (st
 					continue
 				}
 				_, o := sc.LookupParent(id, scopePos)
+				if o == nil {
+					// not in scope at the anchor (e.g. a loop-body variable named at the loop's
+					// post statement): the only variable of that name declared inside the scope of the
+					// anchor (the loop), if there is exactly one
+					o = uniqueLocal(sc, id, u.Decl.Body.Pos(), u.Decl.Body.End())
+				}
 				v, ok := o.(*types.Var)
 				if !ok || v.Parent() == p.Types.Scope() || v.Parent() == types.Universe || v.IsField() {
 					continue
@@ -972,6 +978,27 @@ func (ld *Loaded) genStubOnce(lp *LPkg, skip map[string]string, cur *string) (st
 
 // findStmt locates the unique statement of body whose (whitespace-squeezed) source text starts
 // with anchor; "text#k" selects the k-th match.
+// uniqueLocal finds the single local variable called name declared in scope sc or a scope nested in it.
+func uniqueLocal(sc *types.Scope, name string, lo, hi token.Pos) types.Object {
+	var found []types.Object
+	var walk func(s *types.Scope)
+	walk = func(s *types.Scope) {
+		if o := s.Lookup(name); o != nil && o.Pos() >= lo && o.Pos() < hi {
+			found = append(found, o)
+		}
+		for i := 0; i < s.NumChildren(); i++ {
+			walk(s.Child(i))
+		}
+	}
+	if sc != nil {
+		walk(sc)
+	}
+	if len(found) == 1 {
+		return found[0]
+	}
+	return nil
+}
+
 func findStmt(fset *token.FileSet, body *ast.BlockStmt, anchor string) (ast.Stmt, error) {
 	want := -1
 	if i := strings.LastIndex(anchor, "#"); i > 0 {
